@@ -78,7 +78,14 @@ where
         let all = std::slice::from_raw_parts(ptr.cast::<u8>(), size);
         std::ptr::copy_nonoverlapping(all.as_ptr(), mptr.cast::<u8>(), klen as usize);
     }
-    let back = unsafe { A::init(out, klen) };
+    let back = match crate::util::catch(move || unsafe { A::init(out, klen) }) {
+        Ok(b) => b,
+        Err(msg) => {
+            let all = unsafe { std::slice::from_raw_parts(ptr.cast::<u8>(), size) };
+            let back = format!("panic({})", msg.lines().next().unwrap_or("").chars().take(80).collect::<String>().replace(' ', "_"));
+            return (format!("storage={} ptrlen={} mutlen={} back={}", hexs(all), ptrlen, mutlen, back), orig, back);
+        }
+    };
     // Print the whole address structure (not only ptrlen bytes): padding is part of the contract.
     let all = unsafe { std::slice::from_raw_parts(ptr.cast::<u8>(), size) };
     let _ = bytes;
@@ -148,7 +155,7 @@ impl Case for AddrCase {
                 let klen = match rng.below(8) {
                     0..=3 => 2 + n + 1, // with the terminating NUL (what Linux reports)
                     4 | 5 => 2 + n,     // without
-                    _ => rng.range(2, 110) as usize,
+                    _ => rng.range(0, 110) as usize,
                 };
                 self.feats.push(if klen == 2 + n + 1 { "path+nul" } else if klen == 2 + n { "path-nul" } else { "path-odd-len" }.into());
                 format!("addr unix path {} {klen}", hexs(&p))
@@ -160,12 +167,13 @@ impl Case for AddrCase {
                     _ => rng.range(0, 107),
                 } as usize;
                 let p: Vec<u8> = (0..n).map(|_| byte(rng)).collect();
-                let klen = if rng.chance(7, 8) { 3 + n } else { rng.range(2, 110) as usize };
+                let klen = if rng.chance(7, 8) { 3 + n } else { rng.range(0, 110) as usize };
                 self.feats.push("abstract".into());
                 format!("addr unix abstract {} {klen}", hexs(&p))
             }
             _ => {
-                let klen = if rng.chance(3, 4) { 2 } else { rng.range(2, 110) };
+                // 2 = getsockname/getpeername/accept, 0 = recvmsg from an unbound sender (no address written)
+                let klen = if rng.chance(3, 4) { if rng.chance(1, 2) { 2 } else { 0 } } else { rng.range(0, 110) };
                 self.feats.push("unnamed".into());
                 format!("addr unix unnamed - {klen}")
             }
@@ -214,7 +222,7 @@ impl Case for AddrCase {
                     let legit = match *kind {
                         "path" => klen == 2 + n + 1 || klen == 2 + n,
                         "abstract" => klen == 3 + n,
-                        _ => klen == 2,
+                        _ => klen == 2 || klen == 0,
                     };
                     let (l, o, b) = roundtrip(a, Some(klen), show_unix);
                     Some((l, o, b, legit))
